@@ -52,6 +52,8 @@ class Canon:
     def __init__(self, mode="rel"):
         self.mode = mode
         self.idx = {}
+        self.defer_zero = False
+        self.pending = []
         self.counted = {}  # (classname) -> {count: rank}
         self.meshes = {}
 
@@ -221,6 +223,14 @@ class Canon:
             v = complex(o._value)
             return (tn, v.real.hex(), v.imag.hex())
         if tn == "Zero":
+            if self.mode == "rel":
+                # a Zero lists its free indices sorted by count, which is no occurrence order: its indices get
+                # their relative numbers from their occurrences elsewhere (first pass) and are listed as a set
+                pairs = list(zip(o.ufl_free_indices, o.ufl_index_dimensions))
+                if self.defer_zero:
+                    self.pending.extend(p for p in pairs if p[0] not in self.idx)
+                    return (tn, tuple(o.ufl_shape), "deferred")
+                return (tn, tuple(o.ufl_shape), tuple(sorted((self.idx.get(c, ("?", c)), d) for c, d in pairs)))
             return (tn, tuple(o.ufl_shape), self.fi(o.ufl_free_indices), tuple(o.ufl_index_dimensions))
         if tn in ("Identity", "PermutationSymbol"):
             return (tn, tuple(o.ufl_shape))
@@ -287,10 +297,23 @@ def _baseform_children(o):
     return list(getattr(o, "ufl_operands", ()))
 
 
+def _number_indices_first(c, objs):
+    """'rel' mode, first pass: number every index by its first occurrence outside the index lists of Zeros."""
+    c.defer_zero = True
+    for o in objs:
+        c.any(o)
+    for cnt, dim in sorted(set(c.pending), key=lambda t: (t[1], t[0])):
+        if cnt not in c.idx:
+            c.idx[cnt] = len(c.idx)
+    c.defer_zero = False
+
+
 def canon(o, mode="rel"):
     c = Canon(mode)
     c._collect(o, set())
     c._finalise()
+    if mode == "rel":
+        _number_indices_first(c, [o])
     return c.any(o)
 
 
@@ -301,6 +324,8 @@ def canon_many(objs, mode="rel"):
     for o in objs:
         c._collect(o, seen)
     c._finalise()
+    if mode == "rel":
+        _number_indices_first(c, objs)
     return tuple(c.any(o) for o in objs)
 
 
